@@ -22,6 +22,10 @@ pub enum NetCmd {
     /// several calls on ONE network object (sub-commands: Predict, Backward, Learn, Validate, PredictBatch)
     Script(Vec<NetCmd>),
     LearnTwiceVal { data: Vec<(Tensor, Tensor)>, val: Vec<(Tensor, Tensor)>, th: i32, batch: usize, epochs1: i32, epochs2: i32 },
+    /// (script only) direct assignment of the public map `Network.loopbacks`: (outof, into, iterations, inskips)
+    SetLoops(Vec<(usize, usize, usize, bool)>),
+    /// (script only) direct assignment of the public map `Network.connect`: (into, infrom)
+    SetConnect(Vec<(usize, usize)>),
 }
 
 #[derive(Clone, Debug)]
@@ -47,6 +51,8 @@ pub enum Case {
     Act(Act, bool, Tensor),
     Obj(Obj, Option<(f32, f32)>, Tensor, Tensor),
     OptHistory { opt: Opt, vals: Vec<Vec<Vec<Tensor>>>, steps: Vec<(usize, usize, bool, i32, Tensor)> },
+    /// the same optimizer value attached (validated) again before every phase of steps
+    OptPhases { opt: Opt, vals: Vec<Vec<Vec<Tensor>>>, phases: Vec<Vec<(usize, usize, bool, i32, Tensor)>> },
     RandGen { wrap: bool, seed: u64, n: usize, lo: f32, hi: f32 },
     Shuffle { wrap: bool, seed: u64, n: usize },
     Net(NetSpec, NetCmd),
@@ -209,6 +215,29 @@ impl Case {
                     enc_tensor_in(&mut t, g);
                 }
             }
+            Case::OptPhases { opt, vals, phases } => {
+                t.push(23);
+                opt.enc(&mut t);
+                push_n(&mut t, vals.len());
+                for l in vals {
+                    push_n(&mut t, l.len());
+                    for f in l {
+                        push_n(&mut t, f.len());
+                        f.iter().for_each(|x| enc_tensor_in(&mut t, x));
+                    }
+                }
+                push_n(&mut t, phases.len());
+                for steps in phases {
+                    push_n(&mut t, steps.len());
+                    for (l, f, b, s, g) in steps {
+                        push_n(&mut t, *l);
+                        push_n(&mut t, *f);
+                        push_b(&mut t, *b);
+                        t.push(*s as i128);
+                        enc_tensor_in(&mut t, g);
+                    }
+                }
+            }
             Case::RandGen { wrap, seed, n, lo, hi } => {
                 t.push(30);
                 push_b(&mut t, *wrap);
@@ -355,6 +384,29 @@ impl Case {
                     }
                 }
             }
+            Case::OptPhases { opt, vals, phases } => {
+                let mut o = opt.to();
+                let mut cur = vals.clone();
+                for steps in phases {
+                    let zeros: Vec<Vec<Vec<Tensor>>> = vals
+                        .iter()
+                        .map(|l| l.iter().map(|f| f.iter().map(|x| tensor_of_shape(&x.shape, &vec![0.0; shape_numel(&x.shape)])).collect()).collect())
+                        .collect();
+                    o.validate(zeros);
+                    for (l, f, b, s, g) in steps {
+                        let mut g = g.clone();
+                        o.update(*l, *f, *b, *s, &mut cur[*l][*f][*b as usize], &mut g);
+                        enc_tensor_out(&mut t, &g);
+                    }
+                }
+                push_n(&mut t, cur.len());
+                for l in &cur {
+                    push_n(&mut t, l.len());
+                    for f in l {
+                        enc_list_tensor_out(&mut t, f);
+                    }
+                }
+            }
             Case::RandGen { seed, n, lo, hi, .. } => {
                 let mut g = random::Generator::create(*seed);
                 push_n(&mut t, *n);
@@ -493,6 +545,24 @@ pub fn enc_cmd(t: &mut Tok, cmd: &NetCmd) {
             push_n(t, cmds.len());
             cmds.iter().for_each(|c| enc_cmd(t, c));
         }
+        NetCmd::SetLoops(l) => {
+            t.push(13);
+            push_n(t, l.len());
+            for (o, i, k, s) in l {
+                push_n(t, *o);
+                push_n(t, *i);
+                push_n(t, *k);
+                push_b(t, *s);
+            }
+        }
+        NetCmd::SetConnect(l) => {
+            t.push(14);
+            push_n(t, l.len());
+            for (a, b) in l {
+                push_n(t, *a);
+                push_n(t, *b);
+            }
+        }
         NetCmd::LayerBackward(i, x, g) => {
             t.push(9);
             push_n(t, *i);
@@ -604,6 +674,12 @@ pub fn run_net_cmd(t: &mut Tok, n: &mut network::Network, cmd: &NetCmd) {
             }
             enc_weights(t, n);
         }
+        NetCmd::SetLoops(l) => {
+            n.loopbacks = l.iter().map(|&(o, i, k, s)| (o, (i, k, s))).collect();
+        }
+        NetCmd::SetConnect(l) => {
+            n.connect = l.iter().cloned().collect();
+        }
         NetCmd::LayerBackward(i, x, g) => {
             let (ig, wg, bg) = match &n.layers[*i] {
                 network::Layer::Dense(l) => {
@@ -655,7 +731,7 @@ fn same_bits(a: &Tensor, b: &Tensor) -> bool {
 }
 
 pub fn print_freq(batch: usize, epochs: i32) -> Option<i32> {
-    match (batch + epochs.max(0) as usize) % 4 {
+    match (batch % 4 + epochs.max(0) as usize) % 4 {
         0 => None,
         1 => Some(1),
         2 => Some(2),
